@@ -124,6 +124,8 @@ pub struct Gen {
     budget: i32,
     /// the next generated term must not consume the flow
     fresh_start: bool,
+    /// a function defined in the previous step: call it soon
+    pending_call: Option<String>,
 }
 
 const TUPLE_NAMES: &[&str] = &["A", "B", "C", "P"];
@@ -148,7 +150,7 @@ fn builtin(name: &str) -> Term {
 
 impl Gen {
     pub fn new(rng: Rng) -> Gen {
-        Gen { rng, counter: 0, features: vec![], budget: 0, fresh_start: false }
+        Gen { rng, counter: 0, features: vec![], budget: 0, fresh_start: false, pending_call: None }
     }
 
     fn feat(&mut self, f: &'static str) {
@@ -322,6 +324,41 @@ impl Gen {
     /// as statically nil.
     fn gen_step(&mut self, env: &mut Env, tin: &Ty, d: u32, tail: bool, cx: &Cx, is_last: bool) -> (Chain, Ty, Vec<String>, bool) {
         let roll = self.rng.below(10);
+        if let Some(fname) = self.pending_call.take() {
+            // call the function defined in the previous step (functions that are never applied test
+            // nothing but their compilation)
+            if let Some(f) = env.readable().into_iter().find(|v| v.name == fname && matches!(v.ty, Ty::Fn(..))) {
+                if self.chance(4, 5) && !tail {
+                    let (mut ts, mut ty) = self.gen_call(env, tin, d, cx, &f);
+                    env.kill_pending();
+                    if self.chance(1, 3) && !ty.is_never() && !self.low() {
+                        let (more, t2, _) = self.gen_term(env, &ty, d.saturating_sub(1), false, cx);
+                        ts.extend(more);
+                        ty = t2;
+                    }
+                    self.feat("call-after-definition");
+                    if !ty.is_nil() && !ty.is_never() && self.chance(1, 2) {
+                        // keep the result: `(T)r = … f` / `r = … f`
+                        let (pat, binds, irref, vt) = self.gen_pat_for(env, &ty, d, PatUse::Binding);
+                        env.kill_pending();
+                        let st = if irref { St::Definite } else { St::Pending };
+                        let mut names = vec![];
+                        for (n, t) in binds {
+                            env.bind(&n, t, st.clone());
+                            names.push(n);
+                        }
+                        let risk = !irref && !surely_possible(&pat, &ty);
+                        return (Chain { pat: Some(pat), terms: ts }, vt, if irref { vec![] } else { names }, risk);
+                    }
+                    let pending = if matches!(ts.last(), Some(Term::Match(_))) { env.pending() } else { vec![] };
+                    if pending.is_empty() {
+                        env.kill_pending();
+                    }
+                    let risk = ty.contains_nil();
+                    return (Chain::new(ts), ty, pending, risk);
+                }
+            }
+        }
         if !is_last && d > 0 && roll < 2 && self.budget > 3 {
             // f = #T { … }
             self.fresh_start = false;
@@ -329,8 +366,49 @@ impl Gen {
             let name = self.var_name(env, &[]);
             env.bind(&name, ty, St::Definite);
             env.vars.last_mut().unwrap().rec = rec;
+            self.pending_call = Some(name.clone());
             self.feat("fn-def");
             return (Chain { pat: Some(Pat::Bind(name)), terms: vec![t] }, Ty::ok(), vec![], false);
+        }
+        if !is_last && !tail && self.chance(1, 10) && !self.low() {
+            // scope probe: `{ v =x, w }` as a whole step — a single-branch block WITH a binding that
+            // shadows a visible variable; the outer variable must be untouched afterwards
+            let outer: Vec<Var> = env.readable().into_iter().filter(|v| !v.ty.top_fn()).collect();
+            if !outer.is_empty() {
+                let x = outer[self.rng.usize(outer.len())].clone();
+                let (v, _) = self.gen_lit();
+                let (w, wty) = self.gen_lit();
+                if !wty.is_nil() {
+                    let mut steps = vec![Chain::new(vec![v, Term::Match(Pat::Bind(x.name.clone()))])];
+                    if self.chance(1, 2) {
+                        // read the shadowing binding inside
+                        steps.push(Chain::new(vec![Term::Tuple(
+                            TupName::Anon,
+                            vec![
+                                Field::Val(None, Chain::new(vec![Term::Access(Src::Var(x.name.clone()), vec![])])),
+                                Field::Val(None, Chain::new(vec![w])),
+                            ],
+                        )]));
+                    } else {
+                        steps.push(Chain::new(vec![w]));
+                    }
+                    let ty = if steps.len() == 2 && matches!(steps[1].terms[0], Term::Tuple(..)) {
+                        // [x, w] — x has the literal's type, irrelevant to what follows
+                        Ty::Tup(None, vec![(None, Ty::Int), (None, Ty::Int)])
+                    } else {
+                        wty
+                    };
+                    let _ = ty;
+                    self.feat("scope-probe-block-step");
+                    let blk = Term::Block(Expr { branches: vec![Branch { cond: steps, cons: None }] });
+                    // the step's value is consumed by nothing type-sensitive: bind it away
+                    let name = self.var_name(env, &[x.name.clone()]);
+                    let chain = Chain { pat: None, terms: vec![blk, Term::Match(Pat::Bind(name.clone()))] };
+                    // type of the bound value is not tracked precisely: mark it dead (never read)
+                    env.bind(&name, Ty::nil(), St::Dead);
+                    return (chain, Ty::ok(), vec![], false);
+                }
+            }
         }
         if !tail && roll < 5 {
             // p = chain
